@@ -420,6 +420,12 @@ func (o *LogOracle) Attach(c *Cluster, obs *Obs) {
 
 func (o *LogOracle) Point(*vsched.Sched) {}
 
+// FoldOracle is the state-machine half alone (C06): database == fold of the committed log.
+type FoldOracle struct{ LogOracle }
+
+func (o *FoldOracle) Attach(c *Cluster, obs *Obs)         { o.c = c }
+func (o *FoldOracle) Final(s *vsched.Sched, final string) { o.foldCheck(s, final) }
+
 // foldCheck compares every node's database with the fold of the final leader's log up to the
 // commit offset stored in that database ("the state they apply from it is the same").
 func (o *LogOracle) foldCheck(s *vsched.Sched, final string) {
